@@ -499,6 +499,86 @@ fn overflow_v<V: Fv>(ctx: &Ctx, rep: &mut Report) {
     rep.merge(r);
 }
 
+/// Call sequences over RELATED keys of the two parameter sets: for an accepted Falcon-512
+/// triple A with public polynomial h, the Falcon-1024 keys h || 0^512 (zero extension), h || h
+/// and h(x^2) (and, the other way round, the first half of a Falcon-1024 key as a Falcon-512
+/// key), used right before and right after A on one thread. State kept between calls that
+/// compares keys loosely (prefix, trailing zeros ignored, length not part of the comparison)
+/// confuses them. Returns sequences of (is_1024, class, msg, sig bytes, pk bytes).
+pub fn related_variant_sequences(seed: u64, count: usize) -> Vec<Vec<(bool, String, Vec<u8>, Vec<u8>, Vec<u8>)>> {
+    let mut rng = rng_for(seed, "related-variant-sequences");
+    let mut out = vec![];
+    let sig_of = |c: &crate::gen::Crafted, l: usize, hdr: u8| -> Option<Vec<u8>> {
+        let body = spec::compress(&c.s2, l)?;
+        let mut sb = vec![hdr];
+        sb.extend_from_slice(&c.salt);
+        sb.extend_from_slice(&body);
+        Some(sb)
+    };
+    for i in 0..count {
+        let (a, b) = match (craft_exact(512, F512::BOUND - 1000, (i % 4) as u32, &mut rng), craft_exact(1024, F1024::BOUND - 1000, (i % 4) as u32, &mut rng)) {
+            (Some(a), Some(b)) => (a, b),
+            _ => continue,
+        };
+        let (sa, sb) = match (sig_of(&a, 625, 0x59), sig_of(&b, 1239, 0x5a)) {
+            (Some(x), Some(y)) => (x, y),
+            _ => continue,
+        };
+        let (pa, pb) = (spec::pk_encode(&a.h), spec::pk_encode(&b.h));
+        let ta = (false, "related-512-valid".to_string(), a.msg.clone(), sa.clone(), pa.clone());
+        let tb = (true, "related-1024-valid".to_string(), b.msg.clone(), sb.clone(), pb.clone());
+        // Falcon-1024 keys derived from A's key, used with B's (decodable) signature
+        let mut ext0 = a.h.clone();
+        ext0.extend(vec![0i64; 512]);
+        let mut dup = a.h.clone();
+        dup.extend(a.h.iter().cloned());
+        let up2: Vec<i64> = (0..1024).map(|k| if k % 2 == 0 { a.h[k / 2] } else { 0 }).collect();
+        for (name, h) in [("zero-extended", ext0), ("doubled", dup), ("h(x^2)", up2)] {
+            let t = (true, format!("related-1024-key-{}", name), b.msg.clone(), sb.clone(), spec::pk_encode(&h));
+            out.push(vec![ta.clone(), t.clone(), ta.clone()]);
+            out.push(vec![t.clone(), ta.clone(), t.clone(), tb.clone()]);
+        }
+        // Falcon-512 keys derived from B's key, used with A's signature
+        let trunc: Vec<i64> = b.h[..512].to_vec();
+        let even: Vec<i64> = (0..512).map(|k| b.h[2 * k]).collect();
+        for (name, h) in [("first-half", trunc), ("even-coefficients", even)] {
+            let t = (false, format!("related-512-key-{}", name), a.msg.clone(), sa.clone(), spec::pk_encode(&h));
+            out.push(vec![tb.clone(), t.clone(), tb.clone()]);
+            out.push(vec![t.clone(), tb.clone(), t.clone(), ta.clone()]);
+        }
+    }
+    out
+}
+
+fn related_variants(ctx: &Ctx, rep: &mut Report) {
+    for seq in related_variant_sequences(ctx.seed, ctx.sz(6, 60)) {
+        // every sequence in a FRESH thread: state left by the previous sequence (which used
+        // the same keys) would mask the first step
+        let seq_ref = &seq;
+        let out = std::thread::scope(|s| {
+            s.spawn(move || {
+                let mut rep = Report::new();
+                for (is1024, class, msg, sig, pk) in seq_ref {
+                    if *is1024 {
+                        check_triple::<F1024>(class, msg, sig, pk, &mut rep);
+                    } else {
+                        check_triple::<F512>(class, msg, sig, pk, &mut rep);
+                    }
+                }
+                rep
+            })
+            .join()
+        });
+        match out {
+            Ok(r) => rep.merge(r),
+            Err(_) => rep.inconclusive("a sequence thread died".into()),
+        }
+        rep.count("related_variant_sequences", 1);
+        rep.nontrivial(format!("related|{}", crate::util::hash64(&seq[1].4)).as_bytes());
+    }
+    rep.require("related_variant_sequences", 20);
+}
+
 /// x^{-j} * d in Z_q[X]/(X^n+1), times eps.
 fn div_monomial(d: &[i64], j: usize, eps: i64) -> Vec<i64> {
     let n = d.len();
@@ -712,6 +792,7 @@ pub fn boundary(ctx: &Ctx, rep: &mut Report) {
     rep.require("overflow_layout_triples", 20);
     rep.require("overflow_two-step-block", 2);
     interleaved(ctx, rep);
+    related_variants(ctx, rep);
     boundary_v::<F512>(ctx, rep);
     boundary_v::<F1024>(ctx, rep);
     lenient_v::<F512>(ctx, rep);
